@@ -11,30 +11,31 @@ from . import ir
 KINDS = {'Index': 'MAT', 'ID_index': 'ID', 'Pos_index': 'POS'}
 
 
-def kind_of_type(t):
+def kind_of_type(t, table=None):
     if not t:
         return None
     t = t.replace('const ', '').replace('&', '').strip()
     last = t.split('::')[-1].strip()
-    return KINDS.get(last)
+    return (table or KINDS).get(last)
 
 
-def elem_kind_of_type(t):
+def elem_kind_of_type(t, table=None):
     """kind of the elements of std::vector<K> / std::set<K> ..."""
     if not t or '<' not in t:
         return None
     inner = t[t.index('<') + 1:t.rindex('>')].split(',')[0].strip()
-    return kind_of_type(inner)
+    return kind_of_type(inner, table)
 
 
 class KindChecker:
-    def __init__(self, functions, containers, extra_sigs=None):
+    def __init__(self, functions, containers, extra_sigs=None, kinds_table=None):
         """functions: IR records of the class family; containers: name -> (key kind, mapped kind)"""
         self.containers = containers
+        self.kt = kinds_table
         self.sigs = {}
         for f in functions:
-            ks = [kind_of_type(p.get('t')) for p in f.get('params', [])]
-            rk = kind_of_type(f.get('ret'))
+            ks = [kind_of_type(p.get('t'), self.kt) for p in f.get('params', [])]
+            rk = kind_of_type(f.get('ret'), self.kt)
             key = (f['name'], len(ks))
             if key in self.sigs and self.sigs[key] != (ks, rk):
                 # ambiguous overloads of the same arity: keep only the positions on which they agree
@@ -50,7 +51,7 @@ class KindChecker:
     def run(self, fn):
         env = {}
         for p in fn.get('params', []):
-            env[p.get('id')] = ('scalar', kind_of_type(p.get('t')), elem_kind_of_type(p.get('t')))
+            env[p.get('id')] = ('scalar', kind_of_type(p.get('t'), self.kt), elem_kind_of_type(p.get('t'), self.kt))
         self.fn = fn
         self.walk(fn.get('body'), env)
 
@@ -62,13 +63,13 @@ class KindChecker:
         if k == 'LambdaExpr':
             env2 = dict(env)
             for p in n.get('params', []):
-                env2[p.get('id')] = ('scalar', kind_of_type(p.get('t')), elem_kind_of_type(p.get('t')))
+                env2[p.get('id')] = ('scalar', kind_of_type(p.get('t'), self.kt), elem_kind_of_type(p.get('t'), self.kt))
             self.walk(n.get('body'), env2)
             return
         if k == 'CXXForRangeStmt':
             v = n.get('var') or {}
             rk = self.range_kind(n.get('range'), env)
-            dk = kind_of_type(v.get('t'))
+            dk = kind_of_type(v.get('t'), self.kt)
             if rk and rk[0] == 'pairs':
                 env[v.get('id')] = ('pair', rk[1], rk[2])
             else:
@@ -81,7 +82,7 @@ class KindChecker:
             self.walk(n.get('body'), env)
             return
         if k == 'VarDecl':
-            dk = kind_of_type(n.get('t'))
+            dk = kind_of_type(n.get('t'), self.kt)
             init = n.get('init')
             if init is not None:
                 self.walk(init, env)
@@ -97,9 +98,9 @@ class KindChecker:
                 if dk and ik and dk != ik:
                     self.report(n, '%s is declared as %s but initialised with a %s value (%s)' % (
                         n.get('n'), dk, ik, ir.show(init)[:60]))
-                env[n.get('id')] = ('scalar', dk or ik, elem_kind_of_type(n.get('t')))
+                env[n.get('id')] = ('scalar', dk or ik, elem_kind_of_type(n.get('t'), self.kt))
             else:
-                env[n.get('id')] = ('scalar', dk, elem_kind_of_type(n.get('t')))
+                env[n.get('id')] = ('scalar', dk, elem_kind_of_type(n.get('t'), self.kt))
             return
         for ch in ir.kids(n):
             self.walk(ch, env)
@@ -150,7 +151,7 @@ class KindChecker:
             en = env.get(e.get('id'))
             if en and en[0] == 'scalar':
                 return en[1]
-            return kind_of_type(e.get('t')) if e.get('dk') in ('Var', 'ParmVar') else None
+            return kind_of_type(e.get('t'), self.kt) if e.get('dk') in ('Var', 'ParmVar') else None
         if k in ir.MEMBER_KINDS:
             # pair.first / pair.second / it->first / it->second
             if e.get('n') in ('first', 'second') and c:
@@ -159,13 +160,20 @@ class KindChecker:
                     en = env.get(b.get('id'))
                     if en and en[0] in ('pair', 'iter'):
                         return en[1] if e['n'] == 'first' else en[2]
-            return kind_of_type(e.get('t'))
+            return kind_of_type(e.get('t'), self.kt)
         if k in ('BinaryOperator',) and e.get('op') in ('+', '-') and len(c) == 2:
             a, b = self.kind(c[0], env), self.kind(c[1], env)
             return a or b
         if k == 'UnaryOperator' and e.get('op') in ('++', '--', '*') and c:
             return self.kind(c[0], env)
         if k == 'ConditionalOperator' and len(c) == 3:
+            # `it == map.end() ? key : it->second`: a key absent from the map stands for itself (identity fallback);
+            # the expression has the kind of the mapped value
+            if '.end()' in ir.show(c[0]):
+                for arm in (c[1], c[2]):
+                    a = ir.skipcasts(arm)
+                    if a is not None and a.get('k') in ir.MEMBER_KINDS and a.get('n') == 'second':
+                        return self.kind(arm, env)
             return self.kind(c[1], env) or self.kind(c[2], env)
         if ir.is_call(e):
             name = ir.call_name(e)
